@@ -26,7 +26,18 @@ if [ -f "harness/$p/overlay.files" ]; then
   fi
   OVERLAY="-overlay $SCR/ov/overlay.json"
 fi
-if ! go build $MODFLAG -tags verif $OVERLAY -o "$SCR/$p" "./harness/$p" 2> "$SCR/build.log"; then
+# thorough tier of the schedule checks: first the separate free-running pass
+# under the Go race detector (writes evidence/<id>.race.json, diagnostic only)
+if [ -f "harness/$p/race.enable" ] && echo " $* " | grep -q -- "--tier thorough" && ! echo " $* " | grep -q -- "race="; then
+  if go build -race $MODFLAG -tags verif $OVERLAY -o "$SCR/$p.race" "./harness/$p" 2> "$SCR/build.race.log"; then
+    VERIF_SCRATCH="$SCR" "$SCR/$p.race" --tier thorough --budget 10m -x race=1 || true
+  else
+    echo "race build failed (skipping the race pass)"; tail -3 "$SCR/build.race.log"
+  fi
+fi
+RACEFLAG=""
+if [ "${VERIF_RACE:-0}" = 1 ]; then RACEFLAG="-race"; fi
+if ! go build $RACEFLAG $MODFLAG -tags verif $OVERLAY -o "$SCR/$p" "./harness/$p" 2> "$SCR/build.log"; then
   cat "$SCR/build.log" >&2
   echo "build of harness $P against $REPO failed" >&2
   exit 2
